@@ -111,6 +111,19 @@ class _St(object):
             self.exc = "NotInjective: %s" % x
 
 
+def _exc_feat(exc_text, feat, foreign=False):
+    """the input-class feature that goes into the key of an exception: only the one that explains this exception type
+    (otherwise every exception type would get one key per unrelated feature of the input).  foreign: the unlocking
+    data at this position was made for another input / the spent script was replaced - the only states of part (a)
+    in which something that is not a signature can reach a signature check"""
+    t = exc_text.split(":")[0]
+    if (t, feat) in (("NoSuchPointError", "offcurve-key-listed"), ("AttributeError", "unspent-missing")):
+        return feat
+    if t == "UnexpectedDER" and foreign:
+        return "foreign-unlocking-data"
+    return "-"
+
+
 def _listed_now(st, shape, pos):
     return XA.listed_now(st.mut, shape, pos)
 
@@ -120,69 +133,95 @@ def _features(coin, st, pos):
 
 
 def _judge_state(rec, st, last):
-    """compare what pycoin reports on the concrete state with rec['att'] (TLC).  -> list of (key, what, detail)"""
+    """ask pycoin about every input position of the concrete state and compare with what TLC demands.
+    -> list of (key, what, detail)"""
     coin, shape = rec["coin"], rec["shape"]
     fails = []
     tx = st.tx
     unl = st.unl()
     if unl != rec["unl"] or len(tx.txs_in) != len(rec["att"]):
         raise MachineryError("concretization lost track of the unlocking data: %s vs %s" % (unl, rec["unl"]))
-    state = "as-signed" if last["t"] == "sign" else ("retag" if last["t"] == "retag" else "edit:" + last["m"])
     for pos in range(len(tx.txs_in)):
         exp = sorted([list(x) for x in rec["att"][pos]])
         u = unl[pos]
         d = shape[u - 1] if u else None
-        kc = "none" if d is None else ("multi" if d["kind"] in MULTI else "single")
-        cc = "forkid" if coin in FORKID else "plain"
-        feat = _features(coin, st, pos)
-        cls = feat if feat else "kind=%s|coin=%s|%s" % (kc, cc, state)
-        listed = _listed_now(st, shape, pos)
+        # R2: where the structure is as signed, the attribution TLC demands must equal C05's independent projection
+        # (plain ECDSA verification of every blob against every listed key under the digest its byte selects)
+        if d is not None and st.ids()[pos] == u == pos + 1 and tx.unspents[pos] is not None and \
+                bytes(tx.unspents[pos].script) == st.ses.puzzles[pos].spk:
+            proj = SG.project_input(coin, tx, pos, st.ses.puzzles[pos], 0)["signed"]
+            if proj != exp:
+                raise MachineryError("specification and direct verification disagree on %s input %d after %s: TLC %s, verification %s" % (
+                    coin, pos, [_short(e) for e in rec["hist"]], exp, proj))
         before = XA.frozen(tx)
         rep = XA.report(coin, tx, pos)
-        ann = None
-        if d is not None and d["kind"] not in WITNESS_KINDS:
-            ann = XA.annotated_signers(coin, tx, pos)
-        if XA.frozen(tx) != before:
-            fails.append(("X02|readonly|who_signed-or-annotate-changed-the-transaction", "asking who signed input %d changed the transaction" % pos, None))
-        det = {"coin": coin, "shape": shape, "nout": rec["nout"], "hist": rec["hist"], "pos": pos, "expected": exp, "report": rep,
-               "annotated": ann}
-        for call, text in sorted(rep["exc"].items()):
-            fails.append(("X02|who_signed|exception=%s|call=%s|%s" % (text.split(":")[0], call, feat or "-"),
-                          "%s(tx, %d) raised %s" % (call, pos, text), det))
-        if "pairs" in rep:
-            got = rep["pairs"]
-            if got != exp:
-                gk, ek = set(map(tuple, got)), set(map(tuple, exp))
-                if gk < ek:
-                    rel = "missing"
-                elif gk > ek:
-                    rel = "invented"
-                elif set(k for k, b in gk) == set(k for k, b in ek):
-                    rel = "wrong-type"
-                else:
-                    rel = "other"
-                fails.append(("X02|who_signed|pairs|%s|%s" % (rel, cls),
-                              "input %d: public_pairs_signed reports %s, the specification demands %s (history %s)" % (
-                                  pos, got, exp, [_short(e) for e in rec["hist"]]), det))
-            elif "addr" in rep:
-                want = sorted([k, d["form"], b] for k, b in exp)
-                if rep["addr"] != want:
-                    forms = sorted(set(x[1] for x in rep["addr"]))
-                    fails.append(("X02|who_signed_tx|address|key-form=%s|reported-form=%s" % (d["form"] if d else "?", ",".join(forms)),
-                                  "input %d: who_signed_tx names the addresses %s (key id, form, type); the keys that signed are %s" % (
-                                      pos, rep["addr"], want), det))
-        if ann is not None:
-            if "exc" in ann:
-                fails.append(("X02|annotate|exception=%s%s" % (ann["exc"].split(":")[0], "|" + feat if feat else ""),
-                              "annotate_scripts(tx, %d) raised %s" % (pos, ann["exc"]), det))
+        ann = XA.annotated_signers(coin, tx, pos) if d is not None and d["kind"] not in WITNESS_KINDS else None
+        obs = {"rep": rep, "ann": ann, "changed": XA.frozen(tx) != before, "feat": _features(coin, st, pos),
+               "listed": _listed_now(st, shape, pos),
+               "foreign": bool(u) and (st.ids()[pos] != u or _listed_now(st, shape, pos) != list(d["keys"]))}
+        fails += compare_reports(rec, pos, last, obs)
+    return fails
+
+
+def compare_reports(rec, pos, last, obs):
+    """pure: what pycoin reported for input position pos (obs) against what TLC demands (rec).  -> [(key, what, detail)]"""
+    coin, shape = rec["coin"], rec["shape"]
+    fails = []
+    state = "as-signed" if last["t"] == "sign" else ("retag" if last["t"] == "retag" else "edit:" + last["m"])
+    exp = sorted([list(x) for x in rec["att"][pos]])
+    may = sorted([list(x) for x in rec.get("may", rec["att"])[pos]])
+    u = rec["unl"][pos]
+    d = shape[u - 1] if u else None
+    kc = "none" if d is None else ("multi" if d["kind"] in MULTI else "single")
+    cc = "forkid" if coin in FORKID else "plain"
+    feat = obs["feat"]
+    cls = feat if feat else "kind=%s|coin=%s|%s" % (kc, cc, state)
+    listed = obs["listed"]
+    rep, ann = obs["rep"], obs["ann"]
+    if obs["changed"]:
+        fails.append(("X02|readonly|who_signed-or-annotate-changed-the-transaction", "asking who signed input %d changed the transaction" % pos, None))
+    det = {"coin": coin, "shape": shape, "nout": rec["nout"], "hist": rec["hist"], "pos": pos, "expected": exp, "may": may, "report": rep,
+           "annotated": ann}
+    for call, text in sorted(rep["exc"].items()):
+        fails.append(("X02|who_signed|exception=%s|call=%s|%s" % (text.split(":")[0], call, _exc_feat(text, feat, obs["foreign"])),
+                      "%s(tx, %d) raised %s" % (call, pos, text), det))
+    if "pairs" in rep:
+        got = rep["pairs"]
+        gk, ek, mk = set(map(tuple, got)), set(map(tuple, exp)), set(map(tuple, may))
+        if ek <= gk <= mk:
+            exp = got              # (a corner the specification leaves open: the report is within its bounds)
+        if got != exp:
+            if gk < ek:
+                rel = "missing"
+            elif gk > ek:
+                rel = "invented"
+            elif set(k for k, b in gk) == set(k for k, b in ek):
+                rel = "wrong-type"
             else:
-                want = sorted([k, XA.type_text(b)] for k, b in exp)
-                got = [x for x in ann["pairs"] if x[0] in listed]
-                if got != want:
-                    rel = "missing" if set(map(tuple, got)) < set(map(tuple, want)) else "invented" if set(map(tuple, got)) > set(map(tuple, want)) else "other"
-                    fails.append(("X02|annotate|signers|%s|%s" % (rel, cls),
-                                  "input %d: the annotation of the signature pushes names the signers %s, the specification demands %s" % (
-                                      pos, got, want), det))
+                rel = "other"
+            fails.append(("X02|who_signed|pairs|%s|%s" % (rel, cls),
+                          "input %d: public_pairs_signed reports %s, the specification demands %s (history %s)" % (
+                              pos, got, exp, [_short(e) for e in rec["hist"]]), det))
+        elif "addr" in rep:
+            want = sorted([k, d["form"], b] for k, b in exp)
+            if rep["addr"] != want:
+                forms = sorted(set(x[1] for x in rep["addr"]))
+                fails.append(("X02|who_signed_tx|address|key-form=%s|reported-form=%s" % (d["form"] if d else "?", ",".join(forms)),
+                              "input %d: who_signed_tx names the addresses %s (key id, form, type); the keys that signed are %s" % (
+                                  pos, rep["addr"], want), det))
+    if ann is not None:
+        if "exc" in ann:
+            ef = _exc_feat(ann["exc"], feat, obs["foreign"])
+            fails.append(("X02|annotate|exception=%s%s" % (ann["exc"].split(":")[0], "|" + ef if ef != "-" else ""),
+                          "annotate_scripts(tx, %d) raised %s" % (pos, ann["exc"]), det))
+        else:
+            want = sorted([k, XA.type_text(b)] for k, b in exp)
+            got = [x for x in ann["pairs"] if x[0] in listed]
+            if got != want:
+                rel = "missing" if set(map(tuple, got)) < set(map(tuple, want)) else "invented" if set(map(tuple, got)) > set(map(tuple, want)) else "other"
+                fails.append(("X02|annotate|signers|%s|%s" % (rel, cls),
+                              "input %d: the annotation of the signature pushes names the signers %s, the specification demands %s" % (
+                                  pos, got, want), det))
     return fails
 
 
@@ -256,16 +295,37 @@ def stage_attr_model(ctx):
     ctx.tlc("X02_MC_Attribution", "X02_MC_Attribution_dev", workers=4, timeout=1200)
     for cfg in (["X02_MC_Attribution_model_q"] if q else ["X02_MC_Attribution_model_t", "X02_MC_Attribution_model_t2"]):
         ctx.tlc("X02_MC_Attribution", cfg, coverage=not q, timeout=3000,
-                require_actions=() if q else ("MSign", "MEdit"))
+                require_actions=() if q else ("MStepSign", "MStepEdit"))
     # vacuity: the corners the lemmas speak about are reachable (TLC must find the "never" claims violated)
-    for inv in ("NeverPartialLoss", "NeverSurvivesTransplant", "NeverSurvivesRetag"):
+    for inv in ("NeverPartialLoss", "NeverSurvivesTransplant", "NeverSurvivesRetag", "NeverOpen"):
         r = ctx.tlc("X02_MC_Attribution", "X02_MC_Attribution_reach_" + inv, expect_ok=False, count=False, workers=4, timeout=1200)
         if r.ok or r.violated != inv:
             raise MachineryError("vacuity: no reachable state violates %s (%s)" % (inv, r.violated))
 
 
+def _corners(recs):
+    """how many printed histories end in the corners the lemmas speak about: an input that kept one signer and lost
+    another; transplanted unlocking data that still verifies; a relabelled signature that still verifies"""
+    pl = tr = rt = 0
+    for r in recs:
+        last = r["hist"][-1]
+        for pos, u in enumerate(r["unl"]):
+            if not u:
+                continue
+            a = set(map(tuple, r["att"][pos]))
+            sg = set(map(tuple, r["signed"][u - 1]))
+            if last["t"] == "mut" and a and a < sg:
+                pl += 1
+            if last["t"] == "mut" and last["m"] == "unl_swap" and u != pos + 1 and a:
+                tr += 1
+            if last["t"] == "retag" and last["a"] == u and any(k == last["key"] for k, b in a):
+                rt += 1
+    return [pl, tr, rt]
+
+
 def stage_attr_replay(ctx, J):
     q = ctx.quick
+    corners = [0, 0, 0]
     for cfg in (["X02_MC_Attribution_replay_q", "X02_MC_Attribution_replay_light_q", "X02_MC_Attribution_replay_deep_q"] if q else
                 ["X02_MC_Attribution_replay_t", "X02_MC_Attribution_replay_light_t", "X02_MC_Attribution_replay_deep_t"]):
         if getattr(ctx, "cfg_only", None) and ctx.cfg_only not in cfg:
@@ -275,6 +335,7 @@ def stage_attr_replay(ctx, J):
                 keep_records=False, timeout=3000)
         if not recs:
             raise MachineryError("no history printed by %s" % cfg)
+        corners = [x + y for x, y in zip(corners, _corners(recs))]
         fails, tot = attr_replay_records(recs)
         ctx.log("replayed %d histories of %s: %d events executed, %d states judged (%d not concretizable), %d disagreements" % (
             len(recs), cfg, tot["events"], tot["states"], tot["skipped"], len(fails)))
@@ -288,20 +349,26 @@ def stage_attr_replay(ctx, J):
         ctx.sample({"history": {k: v for k, v in recs[len(recs) // 2].items() if k != "sigbytes"}})
         for key, what, detail in fails:
             J.fail(key, what, detail)
-    # binding self-test: a history whose demanded attribution is corrupted must be rejected
+    if not getattr(ctx, "cfg_only", None) and min(corners) == 0:
+        raise MachineryError("vacuity: replayed histories reach partial loss / surviving transplant / surviving retag %s times" % corners)
+    ctx.extra["attr_replay_corners"] = {"partial_loss": corners[0], "transplant_survives": corners[1], "retag_survives": corners[2]}
+    # binding self-test on CANNED observations: a report that differs from the demanded attribution must be rejected
     rec = {"k": "x", "coin": "BTC", "shape": [{"kind": "p2pkh", "m": 1, "keys": [1], "form": "c"},
                                                {"kind": "ms_bare", "m": 2, "keys": [2, 3], "form": "c"}], "nout": 2,
-           "hist": [{"t": "sign", "K": [1, 2, 3], "I": [1, 2], "ht": 1, "ic": "none"}, {"t": "mut", "m": "out_amt", "a": 1, "b": 3}],
-           "att": [[], []], "unl": [1, 2], "signed": [[[1, 1]], [[2, 1], [3, 1]]]}
-    f0, _ = attr_replay_records([rec], procs=1)
-    bad = json.loads(json.dumps(rec))
-    bad["att"] = [[[1, 1]], []]
-    f1, _ = attr_replay_records([bad], procs=1)
-    bad2 = json.loads(json.dumps(rec))
-    bad2["att"] = [[], [[2, 3], [3, 1]]]
-    f2, _ = attr_replay_records([bad2], procs=1)
-    ctx.selftest("attr_replay_rejects_corrupted_expectation",
-                 (not [f for f in f0 if "pairs" in f[0]]) and any("pairs|missing" in f[0] for f in f1) and any("pairs" in f[0] for f in f2))
+           "hist": [{"t": "sign", "K": [1, 2, 3], "I": [1, 2], "ht": 1, "ic": "none"}, {"t": "mut", "m": "lock", "a": 0, "b": 1}],
+           "att": [[], [[2, 1], [3, 1]]], "may": [[], [[2, 1], [3, 1]]], "unl": [1, 2], "signed": [[[1, 1]], [[2, 1], [3, 1]]]}
+
+    def ob(pairs, addr, ann):
+        return {"rep": {"exc": {}, "pairs": pairs, "dups": 0, "addr": addr, "secs": []}, "ann": {"pairs": ann, "nsig": len(ann)},
+                "changed": False, "feat": None, "listed": [2, 3], "foreign": False}
+    last = rec["hist"][-1]
+    good = compare_reports(rec, 1, last, ob([[2, 1], [3, 1]], [[2, "c", 1], [3, "c", 1]], [[2, "SIGHASH_ALL"], [3, "SIGHASH_ALL"]]))
+    b1 = compare_reports(rec, 1, last, ob([[2, 1]], [[2, "c", 1]], [[2, "SIGHASH_ALL"], [3, "SIGHASH_ALL"]]))
+    b2 = compare_reports(rec, 0, last, ob([[1, 1]], [[1, "c", 1]], []))
+    b3 = compare_reports(rec, 1, last, ob([[2, 1], [3, 1]], [[2, "u", 1], [3, "c", 1]], [[2, "SIGHASH_ALL"], [3, "SIGHASH_NONE"]]))
+    ctx.selftest("attr_replay_rejects_corrupted_report",
+                 (not good) and any("pairs|missing" in f[0] for f in b1) and any("pairs|invented" in f[0] for f in b2)
+                 and any("who_signed_tx|address" in f[0] for f in b3) and any("annotate|signers" in f[0] for f in b3))
 
 
 # =================================================================== (a) attribution: code -> spec
@@ -335,7 +402,7 @@ def validate_attr_traces(ctx, traces):
 
 
 def stage_attr_trace(ctx, J):
-    n = 320 if ctx.quick else 6000
+    n = 320 if ctx.quick else 2000
     seeds = [ctx.seed * 1000003 + 7919 * i + 11 for i in range(n)]
     import multiprocessing as mp
     chunks = [seeds[i::NPROC] for i in range(NPROC)]
@@ -357,14 +424,15 @@ def stage_attr_trace(ctx, J):
         got = e["att"]
         state = "as-signed" if e["t"] == "sign" else ("retag" if e["t"] == "retag" else "edit:" + e["m"])
         for pos in range(len(got)):
-            w = sorted([list(x) for x in want[pos]]) if pos < len(want) else None
-            if w == got[pos]:
+            w = sorted([list(x) for x in want[pos]["must"]]) if pos < len(want) else None
+            wm = set(map(tuple, want[pos]["may"])) if pos < len(want) else set()
+            if w is not None and set(map(tuple, w)) <= set(map(tuple, got[pos])) <= wm:
                 continue
-            feat, exc = t["_exc"][bad - 1][pos]
+            feat, exc, foreign = t["_exc"][bad - 1][pos]
             cc = "forkid" if t["coin"] in FORKID else "plain"
             cls = feat if feat else "coin=%s|%s" % (cc, state)
             if exc:
-                key = "X02|trace|who_signed|exception=%s|%s" % (exc.split(":")[0], feat or "-")
+                key = "X02|trace|who_signed|exception=%s|%s" % (exc.split(":")[0], _exc_feat(exc, feat, foreign))
             else:
                 gk, wk = set(map(tuple, got[pos])), set(map(tuple, w or []))
                 rel = "missing" if gk < wk else "invented" if gk > wk else "other"
@@ -642,6 +710,9 @@ def _random_spend(rnd, table):
         sigs = [bytes(x) for x in table["sigs"]]
         if rnd.random() < 0.5:
             script += SC.push_enc(rnd.choice(sigs)) + SC.push_enc(rnd.choice(keys)) + bytes([rnd.choice([172, 172, 173])])
+            if script[-1] == 172 and rnd.random() < 0.5:
+                # a second signature check after the first one's result is dropped
+                script += b"\x75" + SC.push_enc(rnd.choice(sigs)) + SC.push_enc(rnd.choice(keys)) + b"\xac"
         else:
             n = rnd.randint(1, 3)
             m = rnd.randint(0, n)
@@ -715,7 +786,7 @@ def _jud_fails(jud, o):
 
 def stage_ann_trace(ctx, J):
     from ..par import pmap
-    n = 1600 if ctx.quick else 16000
+    n = 1200 if ctx.quick else 6000
     per = 100
     chunks = [(ctx.seed * 1000003 + 97 * i + 13, per, 6) for i in range(n // per)]
     pairs = [x for ch in pmap(_ann_trace_chunk, chunks, chunk=1) for x in ch]
@@ -783,3 +854,35 @@ def run(ctx):
         else:
             f(ctx, J)
     ctx.exhaustive = False
+
+
+# =================================================================== single-case replayer (./check X02 --replay FILE)
+
+def replay(ctx, obj):
+    J = Judge(ctx)
+    d = obj.get("detail") or {}
+    print("key :", obj.get("key"))
+    print("what:", obj.get("what"))
+    if "hist" in d:
+        st = _St(SG.Session(d["coin"], d["shape"], n_out=d["nout"]))
+        for e in d["hist"]:
+            st.step(d["coin"], e)
+        pos = d["pos"]
+        rep = XA.report(d["coin"], st.tx, pos)
+        print("history :", [_short(e) for e in d["hist"]])
+        print("demanded:", d["expected"], " (input position %d)" % pos)
+        print("reported:", rep)
+        if rep.get("pairs") != d["expected"] or rep["exc"]:
+            J.fail(obj["key"], obj["what"], d)
+    elif "listing" in d and "sig" in d:
+        case = _ann_case(d["sig"], d["pk"])
+        tx, idx = XN.tx_of_case(case)
+        o = XN.observe(tx, idx)
+        fl = XN.judge(d["listing"], o)
+        print("listed  :", [(r["pc"], XN.opname(r["op"]), r["text"][:30]) for r in o["rows"]], o["exc"])
+        print("demanded:", [(r["pc"], XN.opname(r["op"])) for r in d["listing"]["exec"] + d["listing"]["fail"] + d["listing"]["rest"]])
+        for suffix, what in fl:
+            J.fail("X02|annotate|" + suffix, what, d)
+    else:
+        print(json.dumps(d, indent=1)[:4000])
+        print("(no single-case replayer for this class of record; the record above is the failing case)")
